@@ -1149,3 +1149,13 @@ package queue
 //@   preserves SQLiteStore.*
 //@   loop 1 invariant [between_attempts_no_transaction_is_open] !txOpen && txPending == 0 && batch == ite(req.Batch <= 0, 1, ite(req.Batch > 100, 100, req.Batch)) && leaseTTL == ite(req.LeaseTTL <= 0, 30000000000, req.LeaseTTL)
 //@   calls dequeueOnce requires [C05:the_batch_is_clamped_to_1_100_and_the_lease_ttl_defaults_to_30s] arg1.Route == req.Route && arg1.Target == req.Target && arg1.Now == req.Now && arg2 == ite(req.Batch <= 0, 1, ite(req.Batch > 100, 100, req.Batch)) && arg3 == ite(req.LeaseTTL <= 0, 30000000000, req.LeaseTTL)
+
+// ---- C12 wiring inside the store: the limit options set the fields the admission code reads ----
+//@ func WithQueueLimits$1
+//@   requires s != nil
+//@   modifies s.maxDepth, s.dropPolicy
+//@   ensures [C12:the_depth_limit_option_sets_the_limit_the_store_enforces] (maxDepth >= 0 ==> s.maxDepth == maxDepth) && (maxDepth < 0 ==> s.maxDepth == old(s.maxDepth)) && (trim(dropPolicy) != "" ==> s.dropPolicy == lower(trim(dropPolicy))) && (trim(dropPolicy) == "" ==> s.dropPolicy == old(s.dropPolicy))
+//@ func WithSQLiteQueueLimits$1
+//@   requires s != nil
+//@   modifies s.maxDepth, s.dropPolicy
+//@   ensures [C12:the_depth_limit_option_sets_the_limit_the_store_enforces] (maxDepth >= 0 ==> s.maxDepth == maxDepth) && (maxDepth < 0 ==> s.maxDepth == old(s.maxDepth)) && (trim(dropPolicy) != "" ==> s.dropPolicy == lower(trim(dropPolicy))) && (trim(dropPolicy) == "" ==> s.dropPolicy == old(s.dropPolicy))
